@@ -603,6 +603,8 @@ type Solver struct {
 	NSat, NUnsat, NUnknown int
 	Name     string
 	Incremental bool
+	AbsHeavyDiv bool
+	AbsUsed     int
 	stack    []*Term
 	transient bool
 	log      io.Writer
@@ -686,7 +688,21 @@ func (s *Solver) ref(t *Term) string {
 			}
 			e = fmt.Sprintf("(|%s| %s)", t.Name, strings.Join(parts, " "))
 		default:
-			e = fmt.Sprintf("(%s %s)", t.Op, strings.Join(parts, " "))
+			if s.AbsHeavyDiv && (t.Op == "bvurem" || t.Op == "bvudiv") && t.W >= 32 && t.Args[1].IsConst() && t.Args[1].C.BitLen() > 16 &&
+				new(big.Int).And(t.Args[1].C, new(big.Int).Sub(t.Args[1].C, big.NewInt(1))).Sign() != 0 && hiBound(t.Args[0]).BitLen() > 32 {
+				// division/remainder of a wide value by a large non-power-of-two constant: bit-blasting it does not
+				// finish; it is replaced by an uninterpreted function of the dividend (sound for unsat verdicts; a sat
+				// model may be spurious and is caught by the native replay)
+				fn := fmt.Sprintf("abs_%s_%s_%d", t.Op, t.Args[1].C.String(), t.W)
+				if !s.declared["uf:"+fn] {
+					s.declared["uf:"+fn] = true
+					s.send(fmt.Sprintf("(declare-fun |%s| (%s) %s)", fn, sortOf(t.W), sortOf(t.W)))
+				}
+				s.AbsUsed++
+				e = fmt.Sprintf("(|%s| %s)", fn, parts[0])
+			} else {
+				e = fmt.Sprintf("(%s %s)", t.Op, strings.Join(parts, " "))
+			}
 		}
 		s.send(fmt.Sprintf("(define-fun t%d () %s %s)", t.id, sortOf(t.W), e))
 		s.defined[t.id] = true
